@@ -291,8 +291,10 @@ class PaxosNode(Entity):
         self._phase1_responses[ballot_number].append(response)
         self._promises_received += 1
 
-        # Check if we have a quorum
-        if len(self._phase1_responses[ballot_number]) >= self.quorum_size:
+        # Start phase 2 exactly once per ballot: when the quorum is reached. A promise
+        # arriving later must not re-run phase 2 (it could re-send Accept for the same
+        # ballot with a different value).
+        if len(self._phase1_responses[ballot_number]) == self.quorum_size:
             return self._start_phase2(ballot_number)
 
         return []
